@@ -296,3 +296,395 @@ Proof.
   destruct (@gse_nominal RNum (i_class x)) as [[[[co2 nox] hc] co] pm]. cbn [gr]. rnum. nra.
 Qed.
 
+(* trajectory: the EI method supplies NOx and its three parts per point (property C12); if they close
+   per point, the windowed indices and the amounts close per point as well *)
+Lemma traj_idx_raw_nox (x : inputsR) s : s = NOx \/ s = NO \/ s = NO2 \/ s = HONO ->
+  traj_idx_raw (i_cfg x) (i_fuel x) (length (i_fm x)) (i_orc_traj x) s
+  = if traj_var_has (i_cfg x) NOx then lookup s (i_orc_traj x) else None.
+Proof. intros [->|[->|[->| ->]]]; reflexivity. Qed.
+
+Theorem nox_speciation_traj (x : inputsR) nx no n2 ho : oracle_lengths x ->
+  lookup NOx (i_orc_traj x) = Some nx -> lookup NO (i_orc_traj x) = Some no ->
+  lookup NO2 (i_orc_traj x) = Some n2 -> lookup HONO (i_orc_traj x) = Some ho ->
+  (forall i, nth i no 0 + nth i n2 0 + nth i ho 0 = nth i nx 0) ->
+  forall i,
+    nth i (gl (I_traj_idx x NO)) 0 + nth i (gl (I_traj_idx x NO2)) 0 + nth i (gl (I_traj_idx x HONO)) 0
+      = nth i (gl (I_traj_idx x NOx)) 0
+    /\ nth i (gl (I_traj_em x NO)) 0 + nth i (gl (I_traj_em x NO2)) 0 + nth i (gl (I_traj_em x HONO)) 0
+      = nth i (gl (I_traj_em x NOx)) 0.
+Proof.
+  intros HL E1 E2 E3 E4 HC i.
+  assert (IDX : nth i (gl (I_traj_idx x NO)) 0 + nth i (gl (I_traj_idx x NO2)) 0 + nth i (gl (I_traj_idx x HONO)) 0
+                = nth i (gl (I_traj_idx x NOx)) 0).
+  { unfold I_traj_idx, traj_idx. rewrite !traj_idx_raw_nox by tauto. rewrite E1, E2, E3, E4.
+    destruct (traj_var_has (i_cfg x) NOx); cbn [option_map gl].
+    - rewrite !nth_zo. specialize (HC i). destruct (in_window _ _ i); rl.
+    - destruct i; cbn; rl. }
+  split; [exact IDX|].
+  rewrite !(segment_eq_index_times_fuel x _ HL). rewrite <- IDX. rl.
+Qed.
+
+(* ------------------------------------------------------------------------------------------- *)
+(* 6. SO2 + SO4 = SOx in every component                                                          *)
+(* ------------------------------------------------------------------------------------------- *)
+Lemma ei_sox_splits (f : @fuel RNum) : let '(sox, so2, so4) := ei_sox f in so2 + so4 = sox.
+Proof. unfold ei_sox. reflexivity. Qed.
+
+Lemma const_value_sox (f : @fuel RNum) : const_value f SO2 + const_value f SO4 = const_value f SOx.
+Proof. unfold const_value, ei_sox. reflexivity. Qed.
+
+Lemma nth_repeat_R (v : R) n i : nth i (repeat v n) 0 = if (i <? n)%nat then v else 0.
+Proof.
+  revert i; induction n as [|n IH]; intros i; cbn [repeat]; [destruct i; reflexivity|].
+  destruct i; cbn [nth]; [reflexivity|]. rewrite IH. reflexivity.
+Qed.
+
+Theorem sox_split_traj (x : inputsR) i :
+  nth i (gl (I_traj_idx x SO2)) 0 + nth i (gl (I_traj_idx x SO4)) 0 = nth i (gl (I_traj_idx x SOx)) 0
+  /\ nth i (gl (I_traj_em x SO2)) 0 + nth i (gl (I_traj_em x SO4)) 0 = nth i (gl (I_traj_em x SOx)) 0.
+Proof.
+  assert (HL : forall s, s = SOx \/ s = SO2 \/ s = SO4 ->
+             forall j, nth j (gl (I_traj_em x s)) 0 = nth j (gl (I_traj_idx x s)) 0 * nth j (Rfuel_burn (i_fm x)) 0).
+  { intros s Hs j. unfold I_traj_em, I_traj_idx, traj_em, traj_idx, traj_em_raw, traj_idx_raw.
+    rewrite (const_has_sox _ s Hs). destruct (sox_on (i_cfg x)).
+    - cbn [option_map gl]. rewrite !nth_zo. destruct (in_window _ _ j); [|rl].
+      apply nth_map2_mul. rewrite repeat_length, fuel_burn_length. reflexivity.
+    - assert (traj_var_has (i_cfg x) s = false) as -> by (destruct Hs as [->|[->| ->]]; reflexivity).
+      destruct j; cbn; rl. }
+  assert (IDX : nth i (gl (I_traj_idx x SO2)) 0 + nth i (gl (I_traj_idx x SO4)) 0 = nth i (gl (I_traj_idx x SOx)) 0).
+  { unfold I_traj_idx, traj_idx, traj_idx_raw.
+    rewrite !const_has_sox by tauto. destruct (sox_on (i_cfg x)).
+    - cbn [option_map gl]. rewrite !nth_zo, !nth_repeat_R.
+      pose proof (const_value_sox (i_fuel x)).
+      destruct (in_window _ _ i), (i <? length (i_fm x))%nat; rl.
+    - cbn. destruct i; cbn; rl. }
+  split; [exact IDX|]. rewrite !HL by tauto. rewrite <- IDX. rl.
+Qed.
+
+Theorem sox_split_lto (x : inputsR) :
+  tm_add2 (gtm (I_lto_idx x SO2)) (gtm (I_lto_idx x SO4)) = gtm (I_lto_idx x SOx)
+  /\ tm_add2 (gtm (I_lto_em x SO2)) (gtm (I_lto_em x SO4)) = gtm (I_lto_em x SOx).
+Proof.
+  pose proof (const_value_sox (i_fuel x)) as E.
+  unfold I_lto_em, lto_em, I_lto_idx, lto_idx, lto_idx_raw. rewrite !const_has_sox by tauto.
+  destruct (@lto_fuel RNum (i_cfg x) (i_lto x)) as [[[f1 f2] f3] f4].
+  destruct (sox_on (i_cfg x)).
+  - cbn [option_map gtm tm_const]. destruct (cd (i_cfg x)); cbn [tm_zero_ac tm_mul tm_add2];
+      split; apply tm4_eq; rnum; nra.
+  - cbn. split; apply tm4_eq; rl.
+Qed.
+
+Theorem sox_split_apu (x : inputsR) :
+  gr (I_apu_idx x SO2) + gr (I_apu_idx x SO4) = gr (I_apu_idx x SOx)
+  /\ gr (I_apu_em x SO2) + gr (I_apu_em x SO4) = gr (I_apu_em x SOx).
+Proof.
+  unfold I_apu_em, I_apu_idx, apu_em, apu_idx. destruct (I_apu x) as [a|]; [|cbn; split; rl].
+  cbn [apu_has option_map gr]. split; rnum; nra.
+Qed.
+
+Theorem sox_split_gse (x : inputsR) : gr (I_gse_em x SO2) + gr (I_gse_em x SO4) = gr (I_gse_em x SOx).
+Proof.
+  unfold I_gse_em, gse_em. destruct (gse_on (i_cfg x)); [|cbn; rl].
+  destruct (@gse_nominal RNum (i_class x)) as [[[[co2 nox] hc] co] pm]. cbn [gr]. rl.
+Qed.
+
+(* ------------------------------------------------------------------------------------------- *)
+(* 7. non-negativity (over the reals; finiteness is a binary64 notion and is not a theorem)       *)
+(* ------------------------------------------------------------------------------------------- *)
+Definition tm_nonneg (v : tmvR) : Prop := let '(a, b, c, d) := v in 0 <= a /\ 0 <= b /\ 0 <= c /\ 0 <= d.
+
+(* carbon balance of the APU CO2 index (apu.py): the carbon emitted as CO, HC and PM must not exceed the
+   carbon in the fuel.  Stated on the APU data alone (PM10 is an upper bound of the PM actually split). *)
+Definition carbon_ok (a : @apu_data RNum) : Prop :=
+  (44 / 28) * a_co a + (44 / (82 / 5)) * a_hc a
+  + ((44 / (55 / 4)) * (1 - 95 / 100) + (44 / 12) * (95 / 100) * (95 / 100)) * a_pm10 a <= 3160.
+
+Record nonneg_inputs (x : inputsR) : Prop := {
+  nn_fm : forall i, (S i < length (i_fm x))%nat -> nth (S i) (i_fm x) 0 <= nth i (i_fm x) 0;
+  nn_len : oracle_lengths x;
+  nn_orc : forall s l i, lookup s (i_orc_traj x) = Some l -> 0 <= nth i l 0;
+  nn_orc_lto : forall s v, lookup s (i_orc_lto x) = Some v -> tm_nonneg v;
+  nn_co2 : 0 < f_EI_CO2 (i_fuel x);
+  nn_h2o : 0 <= f_EI_H2O (i_fuel x);
+  nn_energy : 0 <= f_energy (i_fuel x);
+  nn_sulfur : 0 <= f_sulfur (i_fuel x);
+  nn_yield : 0 <= f_yield (i_fuel x) <= 1;
+  nn_lc : forall lc, f_lifecycle (i_fuel x) = Some lc -> 0 <= lc;
+  nn_ff : tm_nonneg (l_ff (i_lto x));
+  nn_nox : tm_nonneg (l_nox (i_lto x));
+  nn_hc : tm_nonneg (l_hc (i_lto x));
+  nn_co : tm_nonneg (l_co (i_lto x));
+  nn_apu : forall a, i_apu x = Some a ->
+      0 <= a_fuel a /\ 0 <= a_nox a /\ 0 <= a_co a /\ 0 <= a_hc a /\ 0 <= a_pm10 a /\ carbon_ok a }.
+
+Lemma const_value_nonneg (x : inputsR) s : nonneg_inputs x -> 0 <= const_value (i_fuel x) s.
+Proof.
+  intros H. pose proof (nn_co2 x H). pose proof (nn_h2o x H). pose proof (nn_sulfur x H).
+  pose proof (nn_yield x H) as [Y0 Y1].
+  assert (P1 : 0 <= f_sulfur (i_fuel x) * (1 - f_yield (i_fuel x))) by (apply Rmult_le_pos; lra).
+  assert (P2 : 0 <= f_sulfur (i_fuel x) * f_yield (i_fuel x)) by (apply Rmult_le_pos; lra).
+  destruct s; unfold const_value, ei_sox, MW_SO2, MW_SO4, MW_S; rnum; lra.
+Qed.
+
+Lemma speciation_nonneg :
+  tm_nonneg (@sp_no RNum) /\ tm_nonneg (@sp_no2 RNum) /\ tm_nonneg (@sp_hono RNum).
+Proof.
+  unfold tm_nonneg, sp_no, sp_no2, sp_hono, noL, noA, noH, no2L, no2A, no2H, honoL, honoA, honoH, c100, c100i.
+  rnum. repeat split; lra.
+Qed.
+
+Lemma tm_nonneg_mul (a b : tmvR) : tm_nonneg a -> tm_nonneg b -> tm_nonneg (tm_mul a b).
+Proof.
+  dtm a; dtm b. unfold tm_nonneg, tm_mul. intros (?&?&?&?) (?&?&?&?). rnum.
+  repeat split; apply Rmult_le_pos; assumption.
+Qed.
+Lemma tm_nonneg_zero_ac (a : tmvR) : tm_nonneg a -> tm_nonneg (tm_zero_ac a).
+Proof. dtm a. unfold tm_nonneg, tm_zero_ac. intros (?&?&?&?). rnum. repeat split; lra. Qed.
+Lemma tm_nonneg_const (v : R) : 0 <= v -> tm_nonneg (@tm_const RNum v).
+Proof. unfold tm_nonneg, tm_const. tauto. Qed.
+Lemma tm_nonneg_sum (a : tmvR) : tm_nonneg a -> 0 <= Rtm_sum a.
+Proof. dtm a. unfold tm_nonneg, Rtm_sum, tm_sum. intros (?&?&?&?). rl. Qed.
+
+Lemma lto_tims_nonneg : tm_nonneg (@lto_tims RNum).
+Proof. unfold tm_nonneg, lto_tims, c_min2s. rnum. repeat split; lra. Qed.
+
+Lemma lto_fuel_nonneg (x : inputsR) : nonneg_inputs x -> tm_nonneg (lto_fuel (i_cfg x) (i_lto x)).
+Proof.
+  intros H. unfold lto_fuel.
+  assert (tm_nonneg (tm_mul lto_tims (l_ff (i_lto x)))) by (apply tm_nonneg_mul; [apply lto_tims_nonneg|apply (nn_ff x H)]).
+  destruct (cd (i_cfg x)); [apply tm_nonneg_zero_ac|]; assumption.
+Qed.
+
+Lemma lto_idx_nonneg (x : inputsR) s : nonneg_inputs x -> tm_nonneg (gtm (I_lto_idx x s)).
+Proof.
+  intros H. destruct speciation_nonneg as (N1 & N2 & N3).
+  assert (Z : tm_nonneg (0, 0, 0, 0)) by (unfold tm_nonneg; lra).
+  unfold I_lto_idx, lto_idx, lto_idx_raw.
+  assert (R : forall o : option tmvR, tm_nonneg (gtm o) ->
+            tm_nonneg (gtm (option_map (fun v => match cd (i_cfg x) with CD_LTO => v | CD_TRAJECTORY => tm_zero_ac v end) o))).
+  { intros [v|] Hv; cbn in *; [|exact Z]. destruct (cd (i_cfg x)); [apply tm_nonneg_zero_ac|]; exact Hv. }
+  apply R.
+  destruct (const_has (i_cfg x) s); [apply tm_nonneg_const, const_value_nonneg, H|].
+  destruct (lto_tab_has (i_cfg x) s).
+  { cbn [gtm]. destruct s; try apply tm_nonneg_mul; try apply (nn_nox x H); try apply (nn_hc x H);
+      try apply (nn_co x H); try assumption; apply tm_nonneg_const; rl. }
+  destruct (lto_var_has (i_cfg x) s).
+  { destruct (lookup s (i_orc_lto x)) as [v|] eqn:E; [apply (nn_orc_lto x H s v E)|exact Z]. }
+  destruct (lto_zero_has (i_cfg x) s); [apply tm_nonneg_const; rl|exact Z].
+Qed.
+
+Theorem lto_amounts_nonneg (x : inputsR) s : nonneg_inputs x -> tm_nonneg (gtm (I_lto_em x s)).
+Proof.
+  intros H. pose proof (lto_idx_nonneg x s H) as HI. unfold I_lto_em, lto_em. unfold I_lto_idx in HI.
+  destruct (lto_idx _ _ _ _ s) as [v|]; cbn [option_map gtm] in *.
+  - apply tm_nonneg_mul; [exact HI|apply lto_fuel_nonneg, H].
+  - exact HI.
+Qed.
+
+Theorem traj_amounts_nonneg (x : inputsR) s i : nonneg_inputs x -> 0 <= nth i (gl (I_traj_em x s)) 0.
+Proof.
+  intros H. rewrite (segment_eq_index_times_fuel x s (nn_len x H)).
+  apply Rmult_le_pos; [|apply fuel_burn_nonneg, (nn_fm x H)].
+  unfold I_traj_idx, traj_idx, traj_idx_raw.
+  destruct (const_has (i_cfg x) s).
+  - cbn [option_map gl]. rewrite nth_zo, nth_repeat_R. pose proof (const_value_nonneg x s H).
+    destruct (in_window _ _ i), (i <? length (i_fm x))%nat; rl.
+  - destruct (traj_var_has (i_cfg x) s); [|destruct i; cbn; rl].
+    destruct (lookup s (i_orc_traj x)) as [l|] eqn:E; cbn [option_map gl]; [|destruct i; cbn; rl].
+    rewrite nth_zo. pose proof (nn_orc x H s l i E). destruct (in_window _ _ i); rl.
+Qed.
+
+Lemma apu_pm10_bounds (x : inputsR) a : nonneg_inputs x -> i_apu x = Some a ->
+  0 <= apu_pm10 (i_cfg x) (i_fuel x) (i_lto x) (i_orc_lto x) a <= a_pm10 a
+  /\ 0 <= apu_so (i_cfg x) (i_fuel x) (i_lto x) (i_orc_lto x) a SO2
+  /\ 0 <= apu_so (i_cfg x) (i_fuel x) (i_lto x) (i_orc_lto x) a SO4.
+Proof.
+  intros H Ha. destruct (nn_apu x H a Ha) as (A1 & A2 & A3 & A4 & A5 & A6).
+  assert (S : forall s, 0 <= apu_so (i_cfg x) (i_fuel x) (i_lto x) (i_orc_lto x) a s).
+  { intros s. unfold apu_so. destruct (apu_running_b a); [|rl].
+    pose proof (lto_idx_nonneg x s H) as HI. unfold I_lto_idx in HI.
+    change (@getd_tm RNum) with gtm.
+    destruct (gtm (lto_idx (i_cfg x) (i_fuel x) (i_lto x) (i_orc_lto x) s)) as [[[a1 a2] a3] a4].
+    cbn [tm_idle]. destruct HI as (?&?&?&?). assumption. }
+  split; [|split; apply S]. pose proof (S SO4) as S4. unfold apu_pm10, nmax. rnum.
+  destruct (Rltb _ 0) eqn:E; [apply Rltb_true in E|apply Rltb_false in E]; lra.
+Qed.
+
+Theorem apu_amounts_nonneg (x : inputsR) s : nonneg_inputs x -> 0 <= gr (I_apu_em x s).
+Proof.
+  intros H. unfold I_apu_em. destruct (I_apu x) as [a|] eqn:Ea; [|cbn; rl].
+  assert (Ha : i_apu x = Some a) by (unfold I_apu in Ea; destruct (apu_on (i_cfg x)); congruence).
+  destruct (nn_apu x H a Ha) as (A1 & A2 & A3 & A4 & A5 & A6).
+  destruct (apu_pm10_bounds x a H Ha) as ((P0 & P1) & S2 & S4).
+  destruct speciation_nonneg as (N1 & N2 & N3).
+  unfold apu_em, apu_idx. destruct (apu_has (i_cfg x) s); [|cbn; rl]. cbn [option_map gr].
+  assert (F : 0 <= apu_fuel a) by (unfold apu_fuel, apu_time; rnum; nra).
+  apply Rmult_le_pos; [|exact F].
+  set (pm := apu_pm10 (i_cfg x) (i_fuel x) (i_lto x) (i_orc_lto x) a) in *.
+  assert (Q1 : apu_pmnvol (i_cfg x) (i_fuel x) (i_lto x) (i_orc_lto x) a = pm * (95 / 100))
+    by (unfold apu_pmnvol, apu_bc; rnum; reflexivity).
+  assert (Q2 : apu_pmvol (i_cfg x) (i_fuel x) (i_lto x) (i_orc_lto x) a = pm - pm * (95 / 100))
+    by (unfold apu_pmvol; rewrite Q1; rnum; reflexivity).
+  destruct (@sp_no RNum) as [[[n1 n2] n3] n4], (@sp_no2 RNum) as [[[m1 m2] m3] m4],
+           (@sp_hono RNum) as [[[h1 h2] h3] h4].
+  destruct N1 as (?&?&?&?), N2 as (?&?&?&?), N3 as (?&?&?&?).
+  pose proof (nn_h2o x H).
+  destruct s; cbn [tm_takeoff]; rewrite ?Q1, ?Q2; try (rnum; nra).
+  (* CO2 by carbon balance *)
+  unfold apu_co2. rewrite Q1, Q2. destruct (apu_running_b a); [|rl].
+  unfold carbon_ok in A6. rnum. nra.
+Qed.
+
+Lemma gse_constants :
+  0 <= @gse_so4 RNum /\ 0 <= @gse_so2 RNum /\ @gse_so4 RNum <= 1 /\ 0 <= @gse_f_no RNum /\ 0 <= @gse_f_no2 RNum
+  /\ 0 <= @gse_f_hono RNum /\ 0 <= @gse_half RNum.
+Proof.
+  unfold gse_so4, gse_so2, gse_fsc, gse_kg2g, gse_eps, gse_mw_so4, gse_mw_so2, gse_mw_o2, gse_f_no, gse_f_no2,
+    gse_f_hono, gse_half. rnum. repeat split; lra.
+Qed.
+
+Lemma gse_nominal_bounds k :
+  let '(co2, nox, hc, co, pm) := @gse_nominal RNum k in 0 < co2 /\ 0 <= nox /\ 0 <= hc /\ 0 <= co /\ 1 <= pm.
+Proof. destruct k; cbn; rnum; repeat split; lra. Qed.
+
+Lemma gse_fuel_nonneg (x : inputsR) : nonneg_inputs x -> 0 <= gse_fuel (i_fuel x) (i_class x).
+Proof.
+  intros H. pose proof (nn_co2 x H). pose proof (gse_nominal_bounds (i_class x)) as B. unfold gse_fuel.
+  destruct (@gse_nominal RNum (i_class x)) as [[[[co2 nox] hc] co] pm]. destruct B as (B1&_).
+  rnum. apply Rlt_le, Rdiv_lt_0_compat; assumption.
+Qed.
+
+Theorem gse_amounts_nonneg (x : inputsR) s : nonneg_inputs x -> 0 <= gr (I_gse_em x s).
+Proof.
+  intros H. pose proof (gse_fuel_nonneg x H) as F. pose proof (nn_h2o x H).
+  destruct gse_constants as (C1&C2&C3&C4&C5&C6&C7).
+  pose proof (gse_nominal_bounds (i_class x)) as B.
+  unfold I_gse_em, gse_em, gse_fuel in *. destruct (gse_on (i_cfg x)); [|cbn; rl].
+  destruct (@gse_nominal RNum (i_class x)) as [[[[co2 nox] hc] co] pm]. destruct B as (B1&B2&B3&B4&B5).
+  cbn [gr]. destruct s; rnum; nra.
+Qed.
+
+Lemma traj_fuel_nonneg (x : inputsR) : nonneg_inputs x -> 0 <= I_traj_fuel x.
+Proof.
+  intros H. rewrite traj_fuel_is_window_sum, <- sum_zero_outside. apply Rsum_nonneg. intros i.
+  rewrite nth_zo. pose proof (fuel_burn_nonneg (i_fm x) (nn_fm x H) i). destruct (in_window _ _ i); rl.
+Qed.
+
+Lemma fuel_drop_nonneg (x : inputsR) : nonneg_inputs x -> 0 <= hd 0 (i_fm x) - last (i_fm x) 0.
+Proof.
+  intros H. destruct (i_fm x) as [|f0 r] eqn:E; [cbn; rl|].
+  pose proof (window_fuel_telescopes (f0 :: r) 0 (length (f0 :: r)) ltac:(lia) ltac:(cbn; lia) ltac:(lia)) as T.
+  rewrite nth_last in T. change (Nat.pred (Nat.max 0 1)) with 0%nat in T. cbn [nth] in T. cbn [hd]. rewrite <- T.
+  rewrite <- sum_zero_outside. apply Rsum_nonneg. intros i. rewrite nth_zo.
+  assert (N : forall j, 0 <= nth j (Rfuel_burn (f0 :: r)) 0).
+  { apply fuel_burn_nonneg. rewrite <- E. apply (nn_fm x H). }
+  specialize (N i). destruct (in_window _ _ i); rl.
+Qed.
+
+Lemma lifecycle_nonneg (x : inputsR) : nonneg_inputs x -> 0 <= I_lifecycle x.
+Proof.
+  intros H. unfold I_lifecycle, lifecycle_adj. destruct (lifecycle_applies x); [|rl].
+  destruct (f_lifecycle (i_fuel x)) as [lc|] eqn:E; [|rl].
+  pose proof (nn_lc x H lc E). pose proof (nn_energy x H). pose proof (fuel_drop_nonneg x H).
+  rnum. apply Rmult_le_pos; [assumption|]. apply Rmult_le_pos; assumption.
+Qed.
+
+Theorem totals_nonneg (x : inputsR) s : nonneg_inputs x -> 0 <= I_total x s.
+Proof.
+  intros H. rewrite total_eq_parts.
+  assert (0 <= Rsum (gl (I_traj_em x s))) by (apply Rsum_nonneg; intros i; apply traj_amounts_nonneg, H).
+  pose proof (tm_nonneg_sum _ (lto_amounts_nonneg x s H)).
+  pose proof (apu_amounts_nonneg x s H). pose proof (gse_amounts_nonneg x s H).
+  pose proof (lifecycle_nonneg x H). destruct s; rl.
+Qed.
+
+Theorem total_fuel_nonneg (x : inputsR) : nonneg_inputs x -> 0 <= I_total_fuel x.
+Proof.
+  intros H. rewrite total_fuel_eq_components.
+  pose proof (traj_fuel_nonneg x H). pose proof (tm_nonneg_sum _ (lto_fuel_nonneg x H)) as L.
+  change (Rtm_sum (lto_fuel (i_cfg x) (i_lto x))) with (I_lto_fuel x) in L.
+  assert (0 <= I_apu_fuel x).
+  { unfold I_apu_fuel. destruct (I_apu x) as [a|] eqn:Ea; [|rl].
+    assert (Ha : i_apu x = Some a) by (unfold I_apu in Ea; destruct (apu_on (i_cfg x)); congruence).
+    destruct (nn_apu x H a Ha) as (A1 & _). unfold apu_fuel, apu_time. rnum. nra. }
+  assert (0 <= I_gse_fuel x) by (unfold I_gse_fuel; destruct (gse_on (i_cfg x)); [apply gse_fuel_nonneg, H|rl]).
+  rl.
+Qed.
+
+(* all amounts together.  PARTIAL: (i) the APU carbon-balance hypothesis [carbon_ok] is an assumption on the
+   APU data set (the harness reports whether the shipped APU_data.toml satisfies it); (ii) over the reals —
+   finiteness / absence of overflow in binary64 is checked on the implementation only. *)
+Theorem amounts_nonneg_partial (x : inputsR) : nonneg_inputs x ->
+  (forall i, 0 <= nth i (Rfuel_burn (i_fm x)) 0)
+  /\ (forall s i, 0 <= nth i (gl (I_traj_em x s)) 0)
+  /\ (forall s, tm_nonneg (gtm (I_lto_em x s)))
+  /\ (forall s, 0 <= gr (I_apu_em x s))
+  /\ (forall s, 0 <= gr (I_gse_em x s))
+  /\ (forall s, 0 <= I_total x s)
+  /\ 0 <= I_total_fuel x.
+Proof.
+  intros H. repeat split.
+  - apply fuel_burn_nonneg, (nn_fm x H).
+  - intros; apply traj_amounts_nonneg, H.
+  - intros; apply lto_amounts_nonneg, H.
+  - intros; apply apu_amounts_nonneg, H.
+  - intros; apply gse_amounts_nonneg, H.
+  - intros; apply totals_nonneg, H.
+  - apply total_fuel_nonneg, H.
+Qed.
+
+(* ------------------------------------------------------------------------------------------- *)
+(* non-vacuity: a 6-point trajectory with a zero-burn segment, under either accounting mode       *)
+(* ------------------------------------------------------------------------------------------- *)
+Definition ex_cfg (m : cd_mode) : config :=
+  mkConfig m true true true G_BFFM2 G_BFFM2 G_BFFM2 PV_FUEL_FLOW PN_NONE true true true.
+Definition ex_fuel : @fuel RNum := @mkFuel RNum 3155.6 1233.3865 43.2 (Some 89) 600 0.02.
+Definition ex_fm : list R := [2000; 1994; 1987.5; 1987.5; 1960; 1945].
+Definition ex_orc : list (species * list R) :=
+  [(NOx, [10; 10; 12; 12; 10; 8]); (NO, [9; 9; 10.8; 10.8; 9; 7.2]); (NO2, [0.5; 0.5; 0.6; 0.6; 0.5; 0.4]);
+   (HONO, [0.5; 0.5; 0.6; 0.6; 0.5; 0.4]); (HC, [1; 1; 1; 1; 1; 1]); (CO, [2; 2; 2; 2; 2; 2]);
+   (PMvol, [0.1; 0.1; 0.1; 0.1; 0.1; 0.1]); (OCic, [0.1; 0.1; 0.1; 0.1; 0.1; 0.1])].
+Definition ex_lto : @lto_data RNum :=
+  @mkLto RNum (0.25, 0.5, 0.9, 1.2) (8, 12, 32, 40) (4, 3, 1.5, 1) (20, 10, 3, 2).
+Definition ex_apu : @apu_data RNum := @mkApu RNum 0.03 0.05 0.03 0.02 0.4.
+Definition ex_inputs (m : cd_mode) : inputsR :=
+  @mkInputs RNum (ex_cfg m) ex_fuel ex_fm 2 2 ex_orc ex_lto
+            [(PMvol, (0.1, 0.1, 0.1, 0.1)); (OCic, (0.1, 0.1, 0.1, 0.1))] (Some ex_apu) AC_WIDE.
+
+Lemma ex_lengths m : oracle_lengths (ex_inputs m).
+Proof. intros s l. destruct s; cbn; intros E; inversion E; reflexivity. Qed.
+
+Lemma ex_nonneg m : nonneg_inputs (ex_inputs m).
+Proof.
+  constructor; cbn.
+  - intros i Hi. do 6 (destruct i as [|i]; [cbn; lra|]). lia.
+  - apply ex_lengths.
+  - intros s l i. destruct s; cbn; intros E; inversion E; subst;
+      do 6 (destruct i as [|i]; [cbn; lra|]); destruct i; cbn; lra.
+  - intros s v. destruct s; cbn; intros E; inversion E; subst; cbn; lra.
+  - lra.
+  - lra.
+  - lra.
+  - lra.
+  - lra.
+  - intros lc E; inversion E; lra.
+  - lra.
+  - lra.
+  - lra.
+  - lra.
+  - intros a E; inversion E; subst. unfold carbon_ok. cbn. lra.
+Qed.
+
+Lemma ex_nox_closes :
+  forall i, nth i [9; 9; 10.8; 10.8; 9; 7.2] 0 + nth i [0.5; 0.5; 0.6; 0.6; 0.5; 0.4] 0
+            + nth i [0.5; 0.5; 0.6; 0.6; 0.5; 0.4] 0 = nth i [10; 10; 12; 12; 10; 8] 0.
+Proof. intros i. do 6 (destruct i as [|i]; [cbn; lra|]). destruct i; cbn; lra. Qed.
+
+(* the zero-burn segment is really there, and the lto window is a proper one *)
+Lemma ex_has_plateau : nth 3 (Rfuel_burn ex_fm) 0 = 0 /\ nth 4 (Rfuel_burn ex_fm) 0 = 27.5.
+Proof. cbn. rnum. split; lra. Qed.
+Lemma ex_lto_window_fuel : I_traj_fuel (ex_inputs CD_LTO) = 1994 - 1987.5.
+Proof.
+  destruct (fuel_counted_once_lto_mode (ex_inputs CD_LTO) eq_refl ltac:(cbn; lia) ltac:(cbn; lia)) as [E _].
+  rewrite E. cbn. reflexivity.
+Qed.
